@@ -322,6 +322,56 @@ theorem C19_pcm_stereo_blocks (flg len : Nat) (pcm : Bytes) (h : pcm.length = le
 
 example : ([1, 2, 3, 4, 5, 6, 7, 8] : Bytes).length = 2 * frameBytes (F16BIT ||| FSTEREO) := by decide
 
+/-! ## non-vacuity at the formats' maximum counts and boundary header values -/
+
+/-- MOD: 128 patterns (order value 127 present), full 128-entry order table, 31 instruments, a sample of the maximal
+length 131070 is covered by `SlotOk` (`len < 131072`) -/
+def modMax : Module :=
+  { modExample with
+    chn := 1, orders := (List.range 128).map fun k => u8 (127 - k),
+    pats := List.replicate 128 { rows := 64, cells := List.replicate 64 {} } }
+
+example : Mod.WellFormed modMax { kind := 2 } ∧ Mod.NoAdpcm modMax.smps := by decide +kernel
+
+/-- S3M: 254 stored patterns (the largest number an order entry can name), 255 orders with both markers, 255
+instruments, speed 255, tempo 255, 32 channels are admitted -/
+def s3mMax : Module :=
+  { name := [], chn := 1, orders := (List.range 255).map fun k => u8 (if k = 100 then 0xfe else if k = 254 then 0xff else k),
+    pats := List.replicate 254 { rows := 64, cells := List.replicate 64 {} },
+    ins := List.replicate 255 { name := [], subs := [] },
+    smps := List.replicate 255 { name := [], len := 0, lps := 0, lpe := 0, flg := 0, pcm := [] },
+    spd := 255, bpm := 255 }
+
+example : S3m.WellFormed s3mMax { nullEmpty := true, gv := 255, mv := 255 } := by decide +kernel
+example : S3m.WellFormed { s3mExample with spd := 1, bpm := 20 } {} := by decide +kernel
+
+/-- XM: 256 patterns, 256 orders (value 255 present), 255 instruments, a 256-row pattern, an instrument with 16
+samples, speed 31, tempo 1000 -/
+def xmMax : Module :=
+  let smp : Smp := { name := [], len := 1, lps := 0, lpe := 0, flg := 0, pcm := [7] }
+  { name := [], chn := 1, orders := (List.range 256).map fun k => u8 (255 - k),
+    pats := { rows := 256, cells := List.replicate 256 {} } :: List.replicate 255 { rows := 1, cells := [{}] },
+    ins := { name := [], subs := (List.range 16).map (fun j => { sid := j, vol := 64, pan := 255, xpo := -128, fin := 127 }),
+             keymap := List.replicate 12 0 ++ (List.range 96).map (· % 16) ++ List.replicate 13 0 } ::
+           List.replicate 254 { name := [], subs := [] },
+    smps := List.replicate 16 smp, spd := 31, bpm := 1000 }
+
+example : Xm.WellFormed xmMax { emptyZero := true, restart := 65535, flags := 65535 } := by decide +kernel
+example : Xm.WellFormed { Xm.xmExample with spd := 1, bpm := 32 } { hsz := 21 + Xm.xmExample.orders.length - 1 } := by decide +kernel
+
+/-- IT: 200 patterns, 256 orders, 200 rows, 255 samples; instrument mode with 255 instruments; speed 255, tempo 255,
+global volume 128 -/
+def itMax (insMode : Bool) : Module :=
+  { name := [], chn := 1, orders := (List.range 256).map fun k => u8 (if k < 200 then 199 - k else 0xfe),
+    pats := { rows := 200, cells := List.replicate 200 {} } :: List.replicate 199 { rows := 1, cells := [{}] },
+    ins := List.replicate 255 (if insMode then { name := [], subs := [], keymap := List.replicate 120 0xff ++ [0] } else { name := [], subs := [] }),
+    smps := List.replicate 255 { name := [], len := 0, lps := 0, lpe := 0, flg := 0, pcm := [] },
+    spd := 255, bpm := 255 }
+
+example : It.WellFormed (itMax false) { gv := 128, mv := 255 } := by decide +kernel
+example : It.WellFormed (itMax true) { insMode := true, keyOff := fun _ _ => true, gv := 0 } := by decide +kernel
+example : It.WellFormed { itExample with spd := 1, bpm := 32 } {} := by decide +kernel
+
 /-! ## the property, all four formats -/
 
 /-- **C19**: for every well-formed abstract song and every choice of writer options, the loader model gives back
